@@ -243,3 +243,56 @@ for _kind, _P in (("bytes hash", Bytes()), ("text hash", Str())):
         replay=_rr_replay("HtdigestFile", "(b'user', b'realm'), V['hash']" if _kind == "text hash" else "(b'user', b'realm'), V['hash'].encode('ascii')", "b'user:realm:' + V['hash'].encode('ascii') + b'\\n'"),
         descr="any user / realm bytes, any ASCII hash",
     ))
+
+
+# ---- save: the recorded modification time belongs to the BOUND file: exporting to another path must not touch it (otherwise
+#      the next load_if_changed() re-reads the untouched bound file and throws the unsaved edits away) ----
+def _save_setup(it, args):
+    self = args["self"]
+    written = []
+    MT = z3.Function("getmtime", z3.StringSort(), z3.IntSort())
+
+    def opener(i, a, k):
+        written.append(i.resolve(a[0]))
+        fh = SObj(i.run.fresh("file"), fresh=True, fields={"writelines": SStub(lambda i2, a2, k2: None, "fh.writelines"), "__exit__": SStub(lambda i2, a2, k2: False, "__exit__")})
+        fh.fields["__enter__"] = SStub(lambda i2, a2, k2: fh, "__enter__")
+        return fh
+
+    it.genv.vars["open"] = SStub(opener, "open", trusted="opens the named file for writing")
+    it.genv.vars["os"] = SObj("os", fields={"path": SObj("os.path", fields={"getmtime": SStub(lambda i, a, k: SInt(MT(i.to_z3(a[0]))), "os.path.getmtime")})})
+    self.fields["_iter_lines"] = SStub(lambda i, a, k: SObj("lines"), "_iter_lines")
+    it.run.ghost.update({"written": written, "MT": MT, "old_mtime": it.to_z3(self.fields["_mtime"], "int")})
+    return None
+
+
+def _save_post(explicit):
+    def post(it, env):
+        g = it.run.ghost
+        self = it.resolve(env.lookup("self"))
+        now = it.to_z3(self.fields["_mtime"], "int")
+        if explicit:
+            path = it.to_z3(env.lookup("path"))
+            one = len(g["written"]) == 1
+            return z3.And(z3.BoolVal(one), it.to_z3(g["written"][0]) == path if one else z3.BoolVal(False), now == g["old_mtime"])
+        own = it.to_z3(self.fields["_path"])
+        one = len(g["written"]) == 1
+        return z3.And(z3.BoolVal(one), it.to_z3(g["written"][0]) == own if one else z3.BoolVal(False), now == g["MT"](own))
+    return post
+
+
+CONTRACTS.append(Contract(
+    "_CommonFile.save[explicit path]", f"{A}::_CommonFile.save",
+    params={"self": Obj(cls=(A, "_CommonFile"), fields={"_path": Str(), "_mtime": _I(lo=0)}), "path": Str()},
+    setup=_save_setup,
+    ensures=[("exactly the named file is written and the recorded modification time of the bound file is left alone", _save_post(True))],
+    descr="any bound path, any export path (equal or not), any recorded time",
+))
+CONTRACTS.append(Contract(
+    "_CommonFile.save[bound file]", f"{A}::_CommonFile.save",
+    params={"self": Obj(cls=(A, "_CommonFile"), fields={"_path": Str(), "_mtime": _I(lo=0)}), "path": Const(None)},
+    setup=_save_setup,
+    requires=["len(self._path) > 0"],
+    ensures=[("exactly the bound file is written and its new modification time is recorded", _save_post(False))],
+    descr="any non-empty bound path",
+))
+MUTANTS.append(("save: an export to another path records that file's time as the bound file's", A, "        if path is not None:\n            with open(path, \"wb\") as fh:\n                fh.writelines(self._iter_lines())\n", "        if path is not None:\n            with open(path, \"wb\") as fh:\n                fh.writelines(self._iter_lines())\n            self._mtime = os.path.getmtime(path)\n", "refute", "_CommonFile.save"))
